@@ -883,7 +883,7 @@ func (w *c05World) opPodDeliver() bool {
 // ---------------------------------------------------------------------------------------------
 
 func TestVerifC05Ledger(t *testing.T) {
-	kit.Run(t, kit.Config{Property: "C05", Unit: "ledger", Quick: 4000, Thorough: 200000,
+	kit.Run(t, kit.Config{Property: "C05", Unit: "ledger", Quick: 4000, Thorough: 120000,
 		Rule: "histories of 60-200 operations over 3-6 reservation names and 4-10 pod names (one of them a reservation-operating-mode pod in 30% of the cases) on 2-3 nodes: API create / update (labels, unschedulable, allocate-once, policy, restricted options, held-back amount, reserved amounts, owners, deletion timestamp) / terminate / delete / re-create with a new uid, in-order informer deliveries to the real plugin handlers with the scheduler-wide DeleteReservation before / after / lagging, scheduling cycles (matchable lookup, allocate-once and restricted gates, interleaved deliveries, assumePods), PreBind, bind, Unreserve (with and without the forget handler), binds by another scheduler, resize, terminate, delete; selector index enabled in half of the cases; 30% of the cases may change the reserved dimensions of a live reservation; ledger + index walker after every operation; distinct = (#live reservations, #assigned pods, #nodes with matchable, #nodes with allocated, index enabled, #bindings in flight, scheduler-wide handler lagging); non-trivial = a pod left (delete / terminate / Unreserve) a reservation that had before been made unavailable or removed while it had assigned pods"},
 		func(c *kit.Case) {
 			r := c.R
@@ -913,13 +913,17 @@ func TestVerifC05Ledger(t *testing.T) {
 			c.Op("nodes=%v reservations=%d pods=%d operatingPod=%v selectorIndex=%v dimsMayChange=%v", w.nodes, len(w.rsvs), len(w.pods), w.pods[0].operating, w.indexed, dimsMayChange)
 			deliverSome := func() {
 				for i, n := 0, r.Range(1, 2); i < n; i++ {
+					did := false
 					switch r.Intn(3) {
 					case 0:
-						w.opRsvDeliver()
+						did = w.opRsvDeliver()
 					case 1:
-						w.opPodDeliver()
+						did = w.opPodDeliver()
 					default:
-						w.opGlobalDeliver()
+						did = w.opGlobalDeliver()
+					}
+					if did {
+						w.check("after a delivery inside a scheduling cycle")
 					}
 				}
 			}
